@@ -72,10 +72,37 @@ class Roles:
                         and isinstance(n.func.value, ast.Name) and n.func.value.id not in self.prog.classes:
                     wraps.append((f, n.func.value.id, n))
                     break
+        self.WRAP_BODY = None
+        if not wraps:
+            # the closure may only hand over to a coroutine method that does the work:
+            #   async def wrapped(): return await self._run_in_slot(job)
+            bodies = []
+            for f in p.all_functions():
+                if f.parent is not None or not f.is_async or f.cls is None or f.name == 'co_run':
+                    continue
+                for n in walk_local(f.node):
+                    if isinstance(n, ast.Call) and isinstance(n.func, ast.Attribute) and n.func.attr == 'co_run' \
+                            and isinstance(n.func.value, ast.Name) and n.func.value.id in f.params[1:]:
+                        bodies.append((f, n.func.value.id, n))
+                        break
+            for bf, bvar, bn in bodies:
+                for g in p.all_functions():
+                    if g.parent is None or not g.is_async:
+                        continue
+                    for n in walk_local(g.node):
+                        if isinstance(n, ast.Await) and isinstance(n.value, ast.Call) \
+                                and isinstance(n.value.func, ast.Attribute) and n.value.func.attr == bf.name:
+                            pos = bf.params[1:].index(bvar)
+                            a = n.value.args[pos] if len(n.value.args) > pos else None
+                            if isinstance(a, ast.Name):
+                                wraps.append((g, a.id, bn))
+                                self.WRAP_BODY = bf
         if len(wraps) != 1:
             raise AnalysisError("window wrapper (nested coroutine awaiting <job>.co_run()): %d candidates"
                                 % len(wraps))
         self.WRAP, self.wrap_jobvar, self.wrap_body_await = wraps[0]
+        if self.WRAP_BODY is None:
+            self.WRAP_BODY = self.WRAP
         self.wrap_factory = self.WRAP.parent
         self.window_cls = self.wrap_factory.cls
         self._note('WRAP', self.WRAP.qualname)
@@ -85,11 +112,12 @@ class Roles:
         self._note('task->job attr', self.task_job_attr)
         # ---- running attribute: constant True stored on the job in WRAP
         ra = []
-        for n in walk_local(self.WRAP.node):
+        bodyvar = self.wrap_body_await.func.value.id
+        for n in walk_local(self.WRAP_BODY.node):
             if isinstance(n, ast.Assign) and isinstance(n.value, ast.Constant) and n.value.value is True:
                 for t in n.targets:
                     if isinstance(t, ast.Attribute) and isinstance(t.value, ast.Name) \
-                            and t.value.id == self.wrap_jobvar:
+                            and t.value.id == bodyvar:
                         ra.append(t.attr)
         self.running_attr = ra[0] if len(set(ra)) == 1 else None
         self._note('running attr', self.running_attr)
@@ -159,6 +187,28 @@ class Roles:
                                 reg = t.attr
                             elif t.value.id in tasknames:
                                 rev = t.attr
+            if not reg:
+                # the two stores may live in a helper the task is handed to: `job._attach(task)` with
+                # `def _attach(self, task): task.<rev> = self; self.<reg> = task`
+                for n in walk_local(f.node):
+                    if isinstance(n, ast.Call) and isinstance(n.func, ast.Attribute):
+                        pos = [i for i, a in enumerate(n.args) if isinstance(a, ast.Name) and a.id in tasknames]
+                        if not pos:
+                            continue
+                        for c in self.prog.classes.values():
+                            g = c.methods.get(n.func.attr)
+                            if g is None or len(g.params) <= pos[0] + 1:
+                                continue
+                            par = g.params[pos[0] + 1]
+                            me = g.params[0]
+                            for m in walk_local(g.node):
+                                if isinstance(m, ast.Assign) and isinstance(m.value, ast.Name):
+                                    for t in m.targets:
+                                        if isinstance(t, ast.Attribute) and isinstance(t.value, ast.Name):
+                                            if m.value.id == par and t.value.id == me:
+                                                reg = t.attr
+                                            elif m.value.id == me and t.value.id == par:
+                                                rev = t.attr
             if reg:
                 found.append((reg, rev, f))
         regs = {x[0] for x in found}
@@ -169,7 +219,9 @@ class Roles:
 
     def _reverse(self):
         """for r in j.required: r.<A>.add(j)"""
-        for f in self.sched.methods.values():
+        funcs = list(self.sched.methods.values()) + [f for f in self.prog.all_functions()
+                                                     if f not in self.sched.methods.values()]
+        for f in funcs:
             for n in walk_local(f.node):
                 if isinstance(n, ast.For) and isinstance(n.iter, ast.Attribute) and n.iter.attr == 'required' \
                         and isinstance(n.target, ast.Name):
@@ -179,8 +231,18 @@ class Roles:
                                 and m.func.attr in ('add', 'update') and isinstance(m.func.value, ast.Attribute) \
                                 and isinstance(m.func.value.value, ast.Name) \
                                 and m.func.value.value.id in (n.target.id, outer):
-                            return m.func.value.attr, f
+                            return m.func.value.attr, self._builder_of(f)
         raise AnalysisError("relation builder (for r in j.required: r.<attr>.add(j)) not found")
+
+    def _builder_of(self, f):
+        """the scheduler method that builds the whole reverse relation: f itself when it is one, else the
+        scheduler method that calls the (job-side) helper holding the linking loop"""
+        if f in self.sched.methods.values():
+            return f
+        users = [g for g in self.sched.methods.values()
+                 if any(isinstance(n, ast.Call) and isinstance(n.func, ast.Attribute) and n.func.attr == f.name
+                        for n in walk_local(g.node))]
+        return users[0] if len(users) == 1 else f
 
     def _mark(self):
         f = self.prog.supplier(self.sched, 'topological_order')
